@@ -33,6 +33,7 @@ def record(res: dict, key: dict, case: dict, detail: str) -> None:
 
 def make_document(rng: random.Random, *, canonical_only: bool = False, **kw):
     kw.setdefault("hyphen", False)
+    kw.setdefault("comment_rate", rng.choice([1.0, 1.0, 1.0, 3.0, 5.0]))
     text, doc = E.canonical_doc(rng, **kw)
     canonical = True
     if not canonical_only and rng.random() < 0.3:
